@@ -1,6 +1,1654 @@
-//! C13: not implemented yet.
-use crate::util::Args;
-pub fn main(_a: &Args) {
-    eprintln!("c13: not implemented");
-    std::process::exit(2);
+//! C13: font info validation at its three entry points (FontInfo::validate, Font::save,
+//! Font::load of a generated fontinfo.plist), boundary-exhaustive per rule.
+//!
+//! A case is the rule-relevant content of a fontinfo.plist (`Case`, mirrors `raw` of
+//! coq/Model/FontInfo.v). For every case the harness
+//!   * builds the in-memory `FontInfo` through the public API when the Rust types admit it and
+//!     calls `validate()` and `Font::save` on it (then reads the written fontinfo.plist back as an
+//!     untyped `plist::Value`, independently of norad's types),
+//!   * writes the case as fontinfo.plist text with its own writer and calls `Font::load`,
+//! and prints the case and the three observations as Gallina terms for the model to judge.
+use crate::util::*;
+use norad::error::{FontInfoErrorKind, FontInfoLoadError, FontLoadError, FontWriteError};
+use norad::fontinfo::*;
+use norad::{Font, FontInfo, Guideline, Identifier, Line};
+use std::fmt::Write as _;
+use std::path::{Path, PathBuf};
+
+#[derive(Clone, Debug, Default, PartialEq)]
+pub struct RGuide {
+    x: bool,
+    y: bool,
+    angle: Option<f64>,
+    id: Option<String>,
+}
+
+#[derive(Clone, Debug, Default)]
+pub struct Case {
+    date: Option<String>,
+    gasp: Option<Vec<(i64, Vec<i64>)>>,
+    guides: Option<Vec<RGuide>>,
+    selection: Option<Vec<i64>>,
+    class: Option<Vec<i64>>,
+    panose: Option<Vec<i64>>,
+    width: Option<i64>,
+    charset: Option<i64>,
+    u32s: Vec<i64>,
+    upm: Option<f64>,
+    lists: [Option<Vec<i64>>; 6],
+    wext: Option<Vec<Vec<(usize, usize)>>>,
+    wsimple: [Option<usize>; 4], // credits, copyright, description, trademark
+    unknown: bool,
+}
+
+const U32_KEYS: [&str; 7] = [
+    "openTypeHeadLowestRecPPEM",
+    "openTypeOS2WeightClass",
+    "openTypeOS2WinAscent",
+    "openTypeOS2WinDescent",
+    "versionMinor",
+    "woffMajorVersion",
+    "woffMinorVersion",
+];
+const LIST_KEYS: [&str; 6] = [
+    "postscriptBlueValues",
+    "postscriptOtherBlues",
+    "postscriptFamilyBlues",
+    "postscriptFamilyOtherBlues",
+    "postscriptStemSnapH",
+    "postscriptStemSnapV",
+];
+
+/// the abstract view of a font info (mirrors `info` of the model)
+#[derive(Clone, Debug, Default, PartialEq)]
+pub struct AGuide {
+    kind: u8, // 0 vertical, 1 horizontal, 2 angle, 9 malformed (file view only)
+    deg: u64, // bits
+    id: Option<String>,
+}
+#[derive(Clone, Debug, Default, PartialEq)]
+pub struct Info {
+    date: Option<Vec<u8>>,
+    gasp: Option<Vec<i64>>,
+    guides: Option<Vec<AGuide>>,
+    selection: Option<Vec<i64>>,
+    class: Option<(i64, i64)>,
+    lists: [Option<Vec<i64>>; 6],
+    wext: Option<Vec<Vec<(usize, usize)>>>,
+    wsimple: [Option<usize>; 4],
+}
+
+// ------------------------------------------------------------------ Gallina printing
+fn g_fl(x: f64) -> String {
+    if x.is_nan() {
+        format!("(fnan {})", g_bool(x.is_sign_negative()))
+    } else if x.is_infinite() {
+        format!("(finf {})", g_bool(x < 0.0))
+    } else {
+        let (s, m, e, _) = dyadic(x);
+        format!("(ffin {} {} ({}))", g_bool(s), m, e)
+    }
+}
+fn g_z(z: i64) -> String {
+    if z < 0 {
+        format!("({})", z)
+    } else {
+        format!("{}", z)
+    }
+}
+fn g_zlist(v: &[i64]) -> String {
+    format!("[{}]", v.iter().map(|z| g_z(*z)).collect::<Vec<_>>().join(";"))
+}
+fn g_o<T>(o: &Option<T>, f: impl Fn(&T) -> String) -> String {
+    match o {
+        None => "None".into(),
+        Some(t) => format!("(Some {})", f(t)),
+    }
+}
+fn g_ids(s: &String) -> String {
+    g_zlist(&s.chars().map(|c| c as i64).collect::<Vec<_>>())
+}
+fn g_wext(v: &Vec<Vec<(usize, usize)>>) -> String {
+    format!(
+        "[{}]",
+        v.iter()
+            .map(|r| format!(
+                "[{}]",
+                r.iter().map(|(a, b)| format!("wi {} {}", a, b)).collect::<Vec<_>>().join(";")
+            ))
+            .collect::<Vec<_>>()
+            .join(";")
+    )
+}
+fn g_ousize(o: &Option<usize>) -> String {
+    g_o(o, |n| format!("{}", n))
+}
+
+fn g_raw(c: &Case) -> String {
+    let mut s = String::from("(mkraw ");
+    let _ = write!(
+        s,
+        "{} ",
+        g_o(&c.date, |d| g_zlist(&d.as_bytes().iter().map(|b| *b as i64).collect::<Vec<_>>()))
+    );
+    let _ = write!(
+        s,
+        "{} ",
+        g_o(&c.gasp, |v| format!(
+            "[{}]",
+            v.iter().map(|(p, b)| format!("({},{})", g_z(*p), g_zlist(b))).collect::<Vec<_>>().join(";")
+        ))
+    );
+    let _ = write!(
+        s,
+        "{} ",
+        g_o(&c.guides, |v| format!(
+            "[{}]",
+            v.iter()
+                .map(|g| format!(
+                    "rgd {} {} {} {}",
+                    g_bool(g.x),
+                    g_bool(g.y),
+                    g_o(&g.angle, |a| g_fl(*a)),
+                    g_o(&g.id, g_ids)
+                ))
+                .collect::<Vec<_>>()
+                .join(";")
+        ))
+    );
+    let _ = write!(s, "{} ", g_o(&c.selection, |v| g_zlist(v)));
+    let _ = write!(s, "{} ", g_o(&c.class, |v| g_zlist(v)));
+    let _ = write!(s, "{} ", g_o(&c.panose, |v| g_zlist(v)));
+    let _ = write!(s, "{} ", g_o(&c.width, |z| g_z(*z)));
+    let _ = write!(s, "{} ", g_o(&c.charset, |z| g_z(*z)));
+    let _ = write!(s, "{} ", g_zlist(&c.u32s));
+    let _ = write!(s, "{} ", g_o(&c.upm, |a| g_fl(*a)));
+    for l in &c.lists {
+        let _ = write!(s, "{} ", g_o(l, |v| g_zlist(v)));
+    }
+    let _ = write!(s, "{} ", g_o(&c.wext, g_wext));
+    for w in &c.wsimple {
+        let _ = write!(s, "{} ", g_ousize(w));
+    }
+    let _ = write!(s, "{})", g_bool(c.unknown));
+    s
+}
+
+fn g_info(i: &Info) -> String {
+    let mut s = String::from("(mkinfo ");
+    let _ = write!(
+        s,
+        "{} ",
+        g_o(&i.date, |d| g_zlist(&d.iter().map(|b| *b as i64).collect::<Vec<_>>()))
+    );
+    let _ = write!(s, "{} ", g_o(&i.gasp, |v| g_zlist(v)));
+    let _ = write!(
+        s,
+        "{} ",
+        g_o(&i.guides, |v| format!(
+            "[{}]",
+            v.iter()
+                .map(|g| format!("gd {} {} {}", g.kind, g_fl(f64::from_bits(g.deg)), g_o(&g.id, g_ids)))
+                .collect::<Vec<_>>()
+                .join(";")
+        ))
+    );
+    let _ = write!(s, "{} ", g_o(&i.selection, |v| g_zlist(v)));
+    let _ = write!(s, "{} ", g_o(&i.class, |(a, b)| format!("({},{})", g_z(*a), g_z(*b))));
+    for l in &i.lists {
+        let _ = write!(s, "{} ", g_o(l, |v| g_zlist(v)));
+    }
+    let _ = write!(s, "{} ", g_o(&i.wext, g_wext));
+    for (k, w) in i.wsimple.iter().enumerate() {
+        let _ = write!(s, "{}{}", g_ousize(w), if k == 3 { ")" } else { " " });
+    }
+    s
+}
+
+#[derive(Clone, Debug, PartialEq)]
+pub enum Obs {
+    NA,
+    Ok(Info),
+    Invalid(String), // Gallina term of the error
+    Parse,
+    Other(i64, String),
+}
+fn g_obs(o: &Obs) -> String {
+    match o {
+        Obs::NA => "ONA".into(),
+        Obs::Ok(i) => format!("(OOk {})", g_info(i)),
+        Obs::Invalid(e) => format!("(OInvalid {})", e),
+        Obs::Parse => "OParse".into(),
+        Obs::Other(c, _) => format!("(OOther {})", g_z(*c)),
+    }
+}
+
+/// Gallina term of a FontInfoErrorKind (None: a kind validate() is not modelled to return)
+fn g_kind(k: &FontInfoErrorKind) -> Option<String> {
+    use FontInfoErrorKind::*;
+    let dbg = format!("{:?}", k);
+    Some(match k {
+        InvalidOpenTypeHeadCreatedDate => "EDate".into(),
+        UnsortedGaspEntries => "EGasp".into(),
+        DuplicateGuidelineIdentifiers => "EDupId".into(),
+        DisallowedSelectionBits => "ESelection".into(),
+        InvalidOs2FamilyClass => "EClass".into(),
+        InvalidPostscriptListLength { name, max_len, len } => {
+            format!("(elistlen \"{}\" {} {})", name, max_len, len)
+        }
+        PostscriptListMustBePairs(name) => format!("(EPairs \"{}\")", name),
+        EmptyWoffAttribute(what) => format!("(EWoff \"{}\")", what),
+        _ => {
+            // variants added after the snapshot are matched by name so that the harness also
+            // builds against trees that lack them
+            if dbg == "InvalidGuidelineAngle" {
+                "EAngle".into()
+            } else {
+                return None;
+            }
+        }
+    })
+}
+
+// ------------------------------------------------------------------ building the FontInfo
+fn u32_of(z: i64) -> Option<u32> {
+    u32::try_from(z).ok()
+}
+fn u8_of(z: i64) -> Option<u8> {
+    u8::try_from(z).ok()
+}
+fn name_rec() -> WoffMetadataExtensionNameRecord {
+    WoffMetadataExtensionNameRecord { text: "n".into(), language: None, dir: None, class: None }
+}
+fn value_rec() -> WoffMetadataExtensionValueRecord {
+    WoffMetadataExtensionValueRecord { text: "v".into(), language: None, dir: None, class: None }
+}
+fn text_recs(n: usize) -> Vec<WoffMetadataTextRecord> {
+    (0..n)
+        .map(|k| WoffMetadataTextRecord {
+            text: format!("t{}", k),
+            language: None,
+            dir: None,
+            class: None,
+        })
+        .collect()
+}
+
+/// The FontInfo holding what the case describes, if the Rust types admit it.
+fn build(c: &Case) -> Option<FontInfo> {
+    if c.unknown {
+        return None;
+    }
+    let mut fi = FontInfo::default();
+    fi.open_type_head_created = c.date.clone();
+    if let Some(v) = &c.gasp {
+        let mut out = vec![];
+        for (p, bs) in v {
+            let mut beh = vec![];
+            for b in bs {
+                beh.push(match b {
+                    0 => GaspBehavior::Gridfit,
+                    1 => GaspBehavior::DoGray,
+                    2 => GaspBehavior::SymmetricGridfit,
+                    3 => GaspBehavior::SymmetricSmoothing,
+                    _ => return None,
+                });
+            }
+            out.push(GaspRangeRecord { range_max_ppem: u32_of(*p)?, range_gasp_behavior: beh });
+        }
+        fi.open_type_gasp_range_records = Some(out);
+    }
+    if let Some(v) = &c.guides {
+        let mut out = vec![];
+        for (k, g) in v.iter().enumerate() {
+            let line = match (g.x, g.y, g.angle) {
+                (true, false, None) => Line::Vertical(k as f64 + 1.0),
+                (false, true, None) => Line::Horizontal(k as f64 + 2.0),
+                (true, true, Some(d)) => Line::Angle { x: k as f64 + 1.0, y: k as f64 + 2.0, degrees: d },
+                _ => return None,
+            };
+            let id = match &g.id {
+                None => None,
+                Some(s) => Some(Identifier::new(s).ok()?),
+            };
+            out.push(Guideline::new(line, None, None, id));
+        }
+        fi.guidelines = Some(out);
+    }
+    if let Some(v) = &c.selection {
+        fi.open_type_os2_selection = Some(v.iter().map(|z| u8_of(*z)).collect::<Option<Vec<u8>>>()?);
+    }
+    if let Some(v) = &c.class {
+        if v.len() != 2 {
+            return None;
+        }
+        fi.open_type_os2_family_class =
+            Some(Os2FamilyClass { class_id: u8_of(v[0])?, subclass_id: u8_of(v[1])? });
+    }
+    if let Some(v) = &c.panose {
+        if v.len() != 10 {
+            return None;
+        }
+        let p = v.iter().map(|z| u32_of(*z)).collect::<Option<Vec<u32>>>()?;
+        fi.open_type_os2_panose = Some(Os2Panose {
+            family_type: p[0],
+            serif_style: p[1],
+            weight: p[2],
+            proportion: p[3],
+            contrast: p[4],
+            stroke_variation: p[5],
+            arm_style: p[6],
+            letterform: p[7],
+            midline: p[8],
+            x_height: p[9],
+        });
+    }
+    if let Some(w) = c.width {
+        fi.open_type_os2_width_class = Some(match w {
+            1 => Os2WidthClass::UltraCondensed,
+            2 => Os2WidthClass::ExtraCondensed,
+            3 => Os2WidthClass::Condensed,
+            4 => Os2WidthClass::SemiCondensed,
+            5 => Os2WidthClass::Normal,
+            6 => Os2WidthClass::SemiExpanded,
+            7 => Os2WidthClass::Expanded,
+            8 => Os2WidthClass::ExtraExpanded,
+            9 => Os2WidthClass::UltraExpanded,
+            _ => return None,
+        });
+    }
+    if let Some(w) = c.charset {
+        use PostscriptWindowsCharacterSet::*;
+        const ALL: [PostscriptWindowsCharacterSet; 20] = [
+            Ansi, Default, Symbol, Macintosh, ShiftJis, Hangul, HangulJohab, Gb2312, ChineseBig5, Greek,
+            Turkish, Vietnamese, Hebrew, Arabic, Baltic, Bitstream, Cyrillic, Thai, EasternEuropean, Oem,
+        ];
+        if !(1..=20).contains(&w) {
+            return None;
+        }
+        fi.postscript_windows_character_set = Some(ALL[(w - 1) as usize]);
+    }
+    for (k, z) in c.u32s.iter().enumerate() {
+        let v = Some(u32_of(*z)?);
+        match k {
+            0 => fi.open_type_head_lowest_rec_ppem = v,
+            1 => fi.open_type_os2_weight_class = v,
+            2 => fi.open_type_os2_win_ascent = v,
+            3 => fi.open_type_os2_win_descent = v,
+            4 => fi.version_minor = v,
+            5 => fi.woff_major_version = v,
+            6 => fi.woff_minor_version = v,
+            _ => return None,
+        }
+    }
+    if let Some(u) = c.upm {
+        fi.units_per_em = Some(NonNegativeIntegerOrFloat::new(u)?);
+    }
+    let fl = |o: &Option<Vec<i64>>| o.as_ref().map(|v| v.iter().map(|z| *z as f64).collect::<Vec<f64>>());
+    fi.postscript_blue_values = fl(&c.lists[0]);
+    fi.postscript_other_blues = fl(&c.lists[1]);
+    fi.postscript_family_blues = fl(&c.lists[2]);
+    fi.postscript_family_other_blues = fl(&c.lists[3]);
+    fi.postscript_stem_snap_h = fl(&c.lists[4]);
+    fi.postscript_stem_snap_v = fl(&c.lists[5]);
+    if let Some(v) = &c.wext {
+        fi.woff_metadata_extensions = Some(
+            v.iter()
+                .map(|items| WoffMetadataExtensionRecord {
+                    id: None,
+                    names: vec![],
+                    items: items
+                        .iter()
+                        .map(|(n, m)| WoffMetadataExtensionItemRecord {
+                            id: None,
+                            names: (0..*n).map(|_| name_rec()).collect(),
+                            values: (0..*m).map(|_| value_rec()).collect(),
+                        })
+                        .collect(),
+                })
+                .collect(),
+        );
+    }
+    if let Some(n) = c.wsimple[0] {
+        fi.woff_metadata_credits = Some(WoffMetadataCredits {
+            credits: (0..n)
+                .map(|k| WoffMetadataCredit {
+                    name: format!("c{}", k),
+                    url: None,
+                    role: None,
+                    dir: None,
+                    class: None,
+                })
+                .collect(),
+        });
+    }
+    if let Some(n) = c.wsimple[1] {
+        fi.woff_metadata_copyright = Some(WoffMetadataCopyright { text: text_recs(n) });
+    }
+    if let Some(n) = c.wsimple[2] {
+        fi.woff_metadata_description = Some(WoffMetadataDescription { url: None, text: text_recs(n) });
+    }
+    if let Some(n) = c.wsimple[3] {
+        fi.woff_metadata_trademark = Some(WoffMetadataTrademark { text: text_recs(n) });
+    }
+    Some(fi)
+}
+
+fn num_to_i64(x: f64) -> i64 {
+    if x.fract() == 0.0 && x.abs() < 1e15 {
+        x as i64
+    } else {
+        // not an integer: something the generators never produce; make it visible
+        7_000_000_000_000_000 + (x.to_bits() % 1_000_000) as i64
+    }
+}
+
+/// abstract view of an in-memory FontInfo
+fn info_of(fi: &FontInfo) -> Info {
+    let l = |o: &Option<Vec<f64>>| o.as_ref().map(|v| v.iter().map(|x| num_to_i64(*x)).collect::<Vec<i64>>());
+    Info {
+        date: fi.open_type_head_created.as_ref().map(|s| s.as_bytes().to_vec()),
+        gasp: fi
+            .open_type_gasp_range_records
+            .as_ref()
+            .map(|v| v.iter().map(|g| g.range_max_ppem as i64).collect()),
+        guides: fi.guidelines.as_ref().map(|v| {
+            v.iter()
+                .map(|g| {
+                    let (kind, deg) = match g.line {
+                        Line::Vertical(_) => (0, 0.0),
+                        Line::Horizontal(_) => (1, 0.0),
+                        Line::Angle { degrees, .. } => (2, degrees),
+                    };
+                    AGuide { kind, deg: deg.to_bits(), id: g.identifier().map(|i| i.as_str().to_string()) }
+                })
+                .collect()
+        }),
+        selection: fi.open_type_os2_selection.as_ref().map(|v| v.iter().map(|b| *b as i64).collect()),
+        class: fi.open_type_os2_family_class.as_ref().map(|c| (c.class_id as i64, c.subclass_id as i64)),
+        lists: [
+            l(&fi.postscript_blue_values),
+            l(&fi.postscript_other_blues),
+            l(&fi.postscript_family_blues),
+            l(&fi.postscript_family_other_blues),
+            l(&fi.postscript_stem_snap_h),
+            l(&fi.postscript_stem_snap_v),
+        ],
+        wext: fi.woff_metadata_extensions.as_ref().map(|v| {
+            v.iter().map(|r| r.items.iter().map(|i| (i.names.len(), i.values.len())).collect()).collect()
+        }),
+        wsimple: [
+            fi.woff_metadata_credits.as_ref().map(|c| c.credits.len()),
+            fi.woff_metadata_copyright.as_ref().map(|c| c.text.len()),
+            fi.woff_metadata_description.as_ref().map(|c| c.text.len()),
+            fi.woff_metadata_trademark.as_ref().map(|c| c.text.len()),
+        ],
+    }
+}
+
+// ------------------------------------------------------------------ untyped view of a written file
+fn pv_num(v: &plist::Value) -> Option<f64> {
+    match v {
+        plist::Value::Real(r) => Some(*r),
+        plist::Value::Integer(i) => i.as_signed().map(|x| x as f64).or_else(|| i.as_unsigned().map(|x| x as f64)),
+        _ => None,
+    }
+}
+fn pv_int(v: &plist::Value) -> i64 {
+    match pv_num(v) {
+        Some(x) => num_to_i64(x),
+        None => 7_100_000_000_000_000,
+    }
+}
+fn pv_arr(v: Option<&plist::Value>) -> Option<Vec<plist::Value>> {
+    v.and_then(|v| v.as_array()).cloned()
+}
+fn pv_len_in(d: &plist::Dictionary, outer: &str, inner: &str) -> Option<usize> {
+    // Some(n) when `outer` is present: n = length of its `inner` array (9999 when malformed)
+    d.get(outer).map(|o| {
+        o.as_dictionary().and_then(|o| o.get(inner)).and_then(|a| a.as_array()).map(|a| a.len()).unwrap_or(9999)
+    })
+}
+/// abstract view of a fontinfo.plist read as an untyped property list
+fn info_of_file(path: &Path) -> Result<Info, String> {
+    if !path.exists() {
+        return Ok(Info::default());
+    }
+    let v = plist::Value::from_file(path).map_err(|e| format!("unreadable: {}", e))?;
+    let d = v.as_dictionary().ok_or("not a dictionary")?;
+    let ints = |key: &str| pv_arr(d.get(key)).map(|a| a.iter().map(pv_int).collect::<Vec<i64>>());
+    let mut lists: [Option<Vec<i64>>; 6] = Default::default();
+    for (k, key) in LIST_KEYS.iter().enumerate() {
+        lists[k] = ints(key);
+    }
+    Ok(Info {
+        date: d.get("openTypeHeadCreated").map(|s| s.as_string().unwrap_or("<not a string>").as_bytes().to_vec()),
+        gasp: pv_arr(d.get("openTypeGaspRangeRecords")).map(|a| {
+            a.iter()
+                .map(|g| g.as_dictionary().and_then(|g| g.get("rangeMaxPPEM")).map(pv_int).unwrap_or(-1))
+                .collect()
+        }),
+        guides: pv_arr(d.get("guidelines")).map(|a| {
+            a.iter()
+                .map(|g| {
+                    let e = plist::Dictionary::new();
+                    let g = g.as_dictionary().unwrap_or(&e);
+                    let id = g.get("identifier").and_then(|s| s.as_string()).map(|s| s.to_string());
+                    match (g.get("x").is_some(), g.get("y").is_some(), g.get("angle")) {
+                        (true, false, None) => AGuide { kind: 0, deg: 0, id },
+                        (false, true, None) => AGuide { kind: 1, deg: 0, id },
+                        (true, true, Some(a)) => {
+                            AGuide { kind: 2, deg: pv_num(a).unwrap_or(f64::NAN).to_bits(), id }
+                        }
+                        _ => AGuide { kind: 9, deg: 0, id },
+                    }
+                })
+                .collect()
+        }),
+        selection: ints("openTypeOS2Selection"),
+        class: ints("openTypeOS2FamilyClass").map(|v| if v.len() == 2 { (v[0], v[1]) } else { (-1, v.len() as i64) }),
+        lists,
+        wext: pv_arr(d.get("woffMetadataExtensions")).map(|a| {
+            a.iter()
+                .map(|r| {
+                    pv_arr(r.as_dictionary().and_then(|r| r.get("items")))
+                        .unwrap_or_default()
+                        .iter()
+                        .map(|it| {
+                            let e = plist::Dictionary::new();
+                            let it = it.as_dictionary().unwrap_or(&e);
+                            (
+                                pv_arr(it.get("names")).map(|a| a.len()).unwrap_or(9999),
+                                pv_arr(it.get("values")).map(|a| a.len()).unwrap_or(9999),
+                            )
+                        })
+                        .collect()
+                })
+                .collect()
+        }),
+        wsimple: [
+            pv_len_in(d, "woffMetadataCredits", "credits"),
+            pv_len_in(d, "woffMetadataCopyright", "text"),
+            pv_len_in(d, "woffMetadataDescription", "text"),
+            pv_len_in(d, "woffMetadataTrademark", "text"),
+        ],
+    })
+}
+
+// ------------------------------------------------------------------ writing the case as a file
+fn esc(s: &str) -> String {
+    s.replace('&', "&amp;").replace('<', "&lt;").replace('>', "&gt;")
+}
+fn x_int(z: i64) -> String {
+    format!("<integer>{}</integer>", z)
+}
+fn x_real(x: f64) -> String {
+    if x.is_nan() {
+        format!("<real>{}</real>", if x.is_sign_negative() { "-nan" } else { "nan" })
+    } else {
+        format!("<real>{}</real>", x)
+    }
+}
+fn x_ints(v: &[i64]) -> String {
+    format!("<array>{}</array>", v.iter().map(|z| x_int(*z)).collect::<String>())
+}
+fn x_texts(key: &str, n: usize) -> String {
+    format!(
+        "<key>{}</key><array>{}</array>",
+        key,
+        (0..n).map(|k| format!("<dict><key>text</key><string>t{}</string></dict>", k)).collect::<String>()
+    )
+}
+pub fn plist_text(c: &Case) -> String {
+    let mut s = String::from(
+        "<?xml version=\"1.0\" encoding=\"UTF-8\"?>\n<!DOCTYPE plist PUBLIC \"-//Apple//DTD PLIST 1.0//EN\" \"http://www.apple.com/DTDs/PropertyList-1.0.dtd\">\n<plist version=\"1.0\">\n<dict>\n",
+    );
+    let mut kv = |k: &str, v: String| {
+        let _ = writeln!(s, "<key>{}</key>{}", k, v);
+    };
+    if let Some(v) = &c.guides {
+        kv(
+            "guidelines",
+            format!(
+                "<array>{}</array>",
+                v.iter()
+                    .enumerate()
+                    .map(|(k, g)| {
+                        let mut t = String::from("<dict>");
+                        if g.x {
+                            let _ = write!(t, "<key>x</key>{}", x_int(k as i64 + 1));
+                        }
+                        if g.y {
+                            let _ = write!(t, "<key>y</key>{}", x_int(k as i64 + 2));
+                        }
+                        if let Some(a) = g.angle {
+                            let _ = write!(t, "<key>angle</key>{}", x_real(a));
+                        }
+                        if let Some(id) = &g.id {
+                            let _ = write!(t, "<key>identifier</key><string>{}</string>", esc(id));
+                        }
+                        t.push_str("</dict>");
+                        t
+                    })
+                    .collect::<String>()
+            ),
+        );
+    }
+    if let Some(v) = &c.gasp {
+        kv(
+            "openTypeGaspRangeRecords",
+            format!(
+                "<array>{}</array>",
+                v.iter()
+                    .map(|(p, b)| format!(
+                        "<dict><key>rangeMaxPPEM</key>{}<key>rangeGaspBehavior</key>{}</dict>",
+                        x_int(*p),
+                        x_ints(b)
+                    ))
+                    .collect::<String>()
+            ),
+        );
+    }
+    if let Some(d) = &c.date {
+        kv("openTypeHeadCreated", format!("<string>{}</string>", esc(d)));
+    }
+    for (k, z) in c.u32s.iter().enumerate() {
+        kv(U32_KEYS[k], x_int(*z));
+    }
+    if let Some(v) = &c.class {
+        kv("openTypeOS2FamilyClass", x_ints(v));
+    }
+    if let Some(v) = &c.panose {
+        kv("openTypeOS2Panose", x_ints(v));
+    }
+    if let Some(v) = &c.selection {
+        kv("openTypeOS2Selection", x_ints(v));
+    }
+    if let Some(w) = c.width {
+        kv("openTypeOS2WidthClass", x_int(w));
+    }
+    for (k, key) in LIST_KEYS.iter().enumerate() {
+        if let Some(v) = &c.lists[k] {
+            kv(key, x_ints(v));
+        }
+    }
+    if let Some(w) = c.charset {
+        kv("postscriptWindowsCharacterSet", x_int(w));
+    }
+    if let Some(u) = c.upm {
+        kv("unitsPerEm", x_real(u));
+    }
+    if let Some(n) = c.wsimple[1] {
+        kv("woffMetadataCopyright", format!("<dict>{}</dict>", x_texts("text", n)));
+    }
+    if let Some(n) = c.wsimple[0] {
+        kv(
+            "woffMetadataCredits",
+            format!(
+                "<dict><key>credits</key><array>{}</array></dict>",
+                (0..n).map(|k| format!("<dict><key>name</key><string>c{}</string></dict>", k)).collect::<String>()
+            ),
+        );
+    }
+    if let Some(n) = c.wsimple[2] {
+        kv("woffMetadataDescription", format!("<dict>{}</dict>", x_texts("text", n)));
+    }
+    if let Some(v) = &c.wext {
+        kv(
+            "woffMetadataExtensions",
+            format!(
+                "<array>{}</array>",
+                v.iter()
+                    .map(|items| format!(
+                        "<dict><key>names</key><array/><key>items</key><array>{}</array></dict>",
+                        items
+                            .iter()
+                            .map(|(n, m)| format!("<dict>{}{}</dict>", x_texts("names", *n), x_texts("values", *m)))
+                            .collect::<String>()
+                    ))
+                    .collect::<String>()
+            ),
+        );
+    }
+    if let Some(n) = c.wsimple[3] {
+        kv("woffMetadataTrademark", format!("<dict>{}</dict>", x_texts("text", n)));
+    }
+    if c.unknown {
+        kv("zzNotAFontInfoKey", x_int(1));
+    }
+    s.push_str("</dict>\n</plist>\n");
+    s
+}
+
+// ------------------------------------------------------------------ the three entry points
+pub struct Sandbox {
+    load_dir: PathBuf,
+    load2_dir: PathBuf,
+    load1_dir: PathBuf,
+    save_dir: PathBuf,
+}
+fn skeleton(dir: &Path, version: u32) {
+    std::fs::create_dir_all(dir.join("glyphs")).unwrap();
+    write_file(
+        &dir.join("metainfo.plist"),
+        &format!("<?xml version=\"1.0\" encoding=\"UTF-8\"?>\n<plist version=\"1.0\"><dict><key>creator</key><string>verif</string><key>formatVersion</key><integer>{}</integer></dict></plist>\n", version),
+    );
+    if version == 3 {
+        write_file(
+            &dir.join("layercontents.plist"),
+            "<?xml version=\"1.0\" encoding=\"UTF-8\"?>\n<plist version=\"1.0\"><array><array><string>public.default</string><string>glyphs</string></array></array></plist>\n",
+        );
+    }
+    write_file(
+        &dir.join("glyphs").join("contents.plist"),
+        "<?xml version=\"1.0\" encoding=\"UTF-8\"?>\n<plist version=\"1.0\"><dict/></plist>\n",
+    );
+}
+impl Sandbox {
+    pub fn new(root: &Path, tag: &str) -> Sandbox {
+        let load_dir = root.join(format!("load_{}.ufo", tag));
+        let load2_dir = root.join(format!("load2_{}.ufo", tag));
+        let load1_dir = root.join(format!("load1_{}.ufo", tag));
+        let save_dir = root.join(format!("save_{}.ufo", tag));
+        skeleton(&load_dir, 3);
+        skeleton(&load2_dir, 2);
+        skeleton(&load1_dir, 1);
+        Sandbox { load_dir, load2_dir, load1_dir, save_dir }
+    }
+}
+
+fn obs_validate(fi: &FontInfo) -> Obs {
+    match catch(|| fi.validate()) {
+        Err(m) => Obs::Other(9, format!("panic: {}", m)),
+        Ok(Ok(())) => Obs::Ok(info_of(fi)),
+        Ok(Err(k)) => match g_kind(&k) {
+            Some(e) => Obs::Invalid(e),
+            None => Obs::Other(5, format!("{:?}", k)),
+        },
+    }
+}
+fn obs_save(fi: &FontInfo, sb: &Sandbox) -> Obs {
+    let mut font = Font::new();
+    font.font_info = fi.clone();
+    let _ = std::fs::remove_dir_all(&sb.save_dir);
+    match catch(|| font.save(&sb.save_dir)) {
+        Err(m) => Obs::Other(9, format!("panic: {}", m)),
+        Ok(Ok(())) => match info_of_file(&sb.save_dir.join("fontinfo.plist")) {
+            Ok(i) => Obs::Ok(i),
+            Err(m) => Obs::Other(6, m),
+        },
+        Ok(Err(FontWriteError::InvalidFontInfo(k))) => match g_kind(&k) {
+            Some(e) => Obs::Invalid(e),
+            None => Obs::Other(5, format!("{:?}", k)),
+        },
+        Ok(Err(e)) => Obs::Other(7, format!("{:?}", e)),
+    }
+}
+fn classify_load(r: Result<Result<Font, FontLoadError>, String>) -> Obs {
+    match r {
+        Err(m) => Obs::Other(9, format!("panic: {}", m)),
+        Ok(Ok(font)) => Obs::Ok(info_of(&font.font_info)),
+        // validate() refused: InvalidData (format 3), FontInfoUpconversion (format 2, 1),
+        // FontInfoV1Upconversion (format 1 lib data)
+        Ok(Err(FontLoadError::FontInfo(FontInfoLoadError::InvalidData(k))))
+        | Ok(Err(FontLoadError::FontInfo(FontInfoLoadError::FontInfoUpconversion(k))))
+        | Ok(Err(FontLoadError::FontInfoV1Upconversion(k))) => match g_kind(&k) {
+            Some(e) => Obs::Invalid(e),
+            None => Obs::Other(5, format!("{:?}", k)),
+        },
+        Ok(Err(FontLoadError::FontInfo(FontInfoLoadError::ParsePlist(_)))) => Obs::Parse,
+        Ok(Err(FontLoadError::ParsePlist { name: "lib.plist", .. })) => Obs::Parse,
+        Ok(Err(e)) => Obs::Other(7, format!("{:?}", e)),
+    }
+}
+fn obs_load(c: &Case, sb: &Sandbox) -> Obs {
+    write_file(&sb.load_dir.join("fontinfo.plist"), &plist_text(c));
+    classify_load(catch(|| Font::load(&sb.load_dir)))
+}
+/// the case only uses fields a format-2 fontinfo.plist has, with the same types
+pub fn v2_applicable(c: &Case) -> bool {
+    c.gasp.is_none()
+        && c.guides.is_none()
+        && c.panose.is_none()
+        && c.width.is_none()
+        && c.charset.is_none()
+        && c.u32s.is_empty()
+        && c.upm.is_none()
+        && c.wext.is_none()
+        && c.wsimple.iter().all(|w| w.is_none())
+        && !c.unknown
+}
+/// the case only uses the PostScript lists (format 1: org.robofab.postScriptHintData in lib.plist)
+pub fn v1_applicable(c: &Case) -> bool {
+    v2_applicable(c) && c.date.is_none() && c.selection.is_none() && c.class.is_none() && c.lists.iter().any(|l| l.is_some())
+}
+fn obs_load2(c: &Case, sb: &Sandbox) -> Obs {
+    if !v2_applicable(c) {
+        return Obs::NA;
+    }
+    write_file(&sb.load2_dir.join("fontinfo.plist"), &plist_text(c));
+    classify_load(catch(|| Font::load(&sb.load2_dir)))
+}
+pub fn lib_text_v1(c: &Case) -> String {
+    let mut s = String::from(
+        "<?xml version=\"1.0\" encoding=\"UTF-8\"?>\n<plist version=\"1.0\">\n<dict>\n<key>org.robofab.postScriptHintData</key>\n<dict>\n",
+    );
+    const KEYS: [&str; 6] = ["blueValues", "otherBlues", "familyBlues", "familyOtherBlues", "hStems", "vStems"];
+    for k in 0..6 {
+        if let Some(v) = &c.lists[k] {
+            if k < 4 {
+                // pairs, a trailing single value as a one-element group
+                let groups: Vec<String> = v.chunks(2).map(x_ints).collect();
+                let _ = writeln!(s, "<key>{}</key><array>{}</array>", KEYS[k], groups.concat());
+            } else {
+                let _ = writeln!(s, "<key>{}</key>{}", KEYS[k], x_ints(v));
+            }
+        }
+    }
+    s.push_str("</dict>\n</dict>\n</plist>\n");
+    s
+}
+fn obs_load1(c: &Case, sb: &Sandbox) -> Obs {
+    if !v1_applicable(c) {
+        return Obs::NA;
+    }
+    write_file(&sb.load1_dir.join("lib.plist"), &lib_text_v1(c));
+    classify_load(catch(|| Font::load(&sb.load1_dir)))
+}
+
+pub type Observed = (Obs, Obs, Obs, Obs, Obs);
+pub fn observe(c: &Case, sb: &Sandbox) -> Observed {
+    let (v, s) = match build(c) {
+        None => (Obs::NA, Obs::NA),
+        Some(fi) => (obs_validate(&fi), obs_save(&fi, sb)),
+    };
+    (v, s, obs_load(c, sb), obs_load2(c, sb), obs_load1(c, sb))
+}
+
+// ------------------------------------------------------------------ JSON (replay files, case list)
+fn j_oi(o: &Option<Vec<i64>>) -> serde_json::Value {
+    match o {
+        None => serde_json::Value::Null,
+        Some(v) => serde_json::json!(v),
+    }
+}
+fn j_f(x: f64) -> serde_json::Value {
+    serde_json::json!(format!("{:#018x}", x.to_bits()))
+}
+fn f_j(v: &serde_json::Value) -> f64 {
+    f64::from_bits(u64::from_str_radix(v.as_str().unwrap().trim_start_matches("0x"), 16).unwrap())
+}
+pub fn case_json(c: &Case) -> serde_json::Value {
+    serde_json::json!({
+        "date": c.date,
+        "gasp": c.gasp.as_ref().map(|v| v.iter().map(|(p, b)| serde_json::json!([p, b])).collect::<Vec<_>>()),
+        "guides": c.guides.as_ref().map(|v| v.iter().map(|g| serde_json::json!({
+            "x": g.x, "y": g.y, "angle": g.angle.map(j_f), "angle_text": g.angle.map(|a| format!("{:?}", a)), "id": g.id})).collect::<Vec<_>>()),
+        "selection": j_oi(&c.selection), "class": j_oi(&c.class), "panose": j_oi(&c.panose),
+        "width": c.width, "charset": c.charset, "u32s": c.u32s,
+        "upm": c.upm.map(j_f), "upm_text": c.upm.map(|a| format!("{:?}", a)),
+        "lists": c.lists.iter().map(j_oi).collect::<Vec<_>>(),
+        "wext": c.wext.as_ref().map(|v| v.iter().map(|r| r.iter().map(|(a, b)| serde_json::json!([a, b])).collect::<Vec<_>>()).collect::<Vec<_>>()),
+        "wsimple": c.wsimple.iter().map(|o| serde_json::json!(o)).collect::<Vec<_>>(),
+        "unknown": c.unknown,
+    })
+}
+fn oi_j(v: &serde_json::Value) -> Option<Vec<i64>> {
+    v.as_array().map(|a| a.iter().map(|z| z.as_i64().unwrap()).collect())
+}
+pub fn case_of_json(j: &serde_json::Value) -> Case {
+    let mut c = Case::default();
+    c.date = j["date"].as_str().map(|s| s.to_string());
+    c.gasp = j["gasp"].as_array().map(|a| a.iter().map(|p| (p[0].as_i64().unwrap(), oi_j(&p[1]).unwrap())).collect());
+    c.guides = j["guides"].as_array().map(|a| {
+        a.iter()
+            .map(|g| RGuide {
+                x: g["x"].as_bool().unwrap(),
+                y: g["y"].as_bool().unwrap(),
+                angle: if g["angle"].is_null() { None } else { Some(f_j(&g["angle"])) },
+                id: g["id"].as_str().map(|s| s.to_string()),
+            })
+            .collect()
+    });
+    c.selection = oi_j(&j["selection"]);
+    c.class = oi_j(&j["class"]);
+    c.panose = oi_j(&j["panose"]);
+    c.width = j["width"].as_i64();
+    c.charset = j["charset"].as_i64();
+    c.u32s = oi_j(&j["u32s"]).unwrap_or_default();
+    c.upm = if j["upm"].is_null() { None } else { Some(f_j(&j["upm"])) };
+    for k in 0..6 {
+        c.lists[k] = oi_j(&j["lists"][k]);
+    }
+    c.wext = j["wext"].as_array().map(|a| {
+        a.iter()
+            .map(|r| {
+                r.as_array()
+                    .unwrap()
+                    .iter()
+                    .map(|p| (p[0].as_u64().unwrap() as usize, p[1].as_u64().unwrap() as usize))
+                    .collect()
+            })
+            .collect()
+    });
+    for k in 0..4 {
+        c.wsimple[k] = j["wsimple"][k].as_u64().map(|n| n as usize);
+    }
+    c.unknown = j["unknown"].as_bool().unwrap_or(false);
+    c
+}
+
+// ------------------------------------------------------------------ generators
+const VALID_DATES: [&str; 3] = ["2020/06/15 12:30:45", "0000/01/01 00:00:00", "9999/12/31 23:59:59"];
+const DATE_BYTES: [u8; 14] = *b"0123569 /:+-T.";
+
+fn ints(n: usize) -> Vec<i64> {
+    (0..n as i64).map(|k| 10 * k - 30).collect()
+}
+fn angle_pool() -> Vec<f64> {
+    vec![
+        -f64::from_bits(1), // -epsilon (smallest subnormal)
+        -0.0,
+        0.0,
+        f64::from_bits(1),
+        180.0,
+        359.99999999999994,
+        360.0,
+        360.00000000000006, // 360 + 1ulp
+        361.0,
+        400.0,
+        -1.0,
+        f64::NAN,
+        -f64::NAN,
+        f64::INFINITY,
+        f64::NEG_INFINITY,
+        1e300,
+        90.5,
+    ]
+}
+fn gd_v(id: Option<&str>) -> RGuide {
+    RGuide { x: true, y: false, angle: None, id: id.map(|s| s.to_string()) }
+}
+fn gd_h(id: Option<&str>) -> RGuide {
+    RGuide { x: false, y: true, angle: None, id: id.map(|s| s.to_string()) }
+}
+fn gd_a(a: f64, id: Option<&str>) -> RGuide {
+    RGuide { x: true, y: true, angle: Some(a), id: id.map(|s| s.to_string()) }
+}
+fn guide_alphabet() -> Vec<RGuide> {
+    vec![
+        gd_v(None),
+        gd_h(Some("a")),
+        gd_a(45.0, Some("a")),
+        gd_a(360.0, Some("b")),
+        gd_a(400.0, Some("a")),
+        gd_a(f64::NAN, None),
+        gd_v(Some("b")),
+    ]
+}
+fn wext_pool() -> Vec<Vec<Vec<(usize, usize)>>> {
+    vec![
+        vec![],
+        vec![vec![]],
+        vec![vec![(1, 1)]],
+        vec![vec![(0, 1)]],
+        vec![vec![(1, 0)]],
+        vec![vec![(0, 0)]],
+        vec![vec![(1, 1), (0, 1)]],
+        vec![vec![(1, 1), (2, 3)]],
+        vec![vec![(1, 1)], vec![]],
+        vec![vec![], vec![(0, 0)]],
+        vec![vec![(1, 0)], vec![]],
+        vec![vec![(1, 1)], vec![(1, 1), (1, 0)]],
+        vec![vec![(2, 3)], vec![(1, 1)]],
+    ]
+}
+
+/// one canonical violation (and one canonical satisfied instance) per rule, in validate() order
+fn rule_instances(ok: bool) -> Vec<Box<dyn Fn(&mut Case)>> {
+    let mut v: Vec<Box<dyn Fn(&mut Case)>> = vec![];
+    v.push(Box::new(move |c| {
+        c.date = Some(if ok { "2021/02/03 04:05:06" } else { "2021/13/03 04:05:06" }.into())
+    }));
+    v.push(Box::new(move |c| c.gasp = Some(if ok { vec![(1, vec![0]), (2, vec![])] } else { vec![(2, vec![1]), (1, vec![])] })));
+    v.push(Box::new(move |c| c.guides = Some(if ok { vec![gd_a(10.0, Some("p"))] } else { vec![gd_a(-10.0, Some("p"))] })));
+    v.push(Box::new(move |c| {
+        // duplicate identifiers; appended so that it combines with the angle rule
+        let mut g = c.guides.clone().unwrap_or_default();
+        g.push(gd_v(Some("q")));
+        g.push(gd_h(Some(if ok { "r" } else { "q" })));
+        c.guides = Some(g)
+    }));
+    v.push(Box::new(move |c| c.selection = Some(if ok { vec![1, 7] } else { vec![1, 5] })));
+    v.push(Box::new(move |c| c.class = Some(if ok { vec![14, 15] } else { vec![15, 0] })));
+    for k in 0..6 {
+        v.push(Box::new(move |c| {
+            let max = [14, 10, 14, 10, 12, 12][k];
+            c.lists[k] = Some(ints(if ok { max } else { max + 1 }))
+        }));
+    }
+    for k in 0..4 {
+        // parity
+        v.push(Box::new(move |c| c.lists[k] = Some(ints(if ok { 2 } else { 3 }))));
+    }
+    v.push(Box::new(move |c| c.wext = Some(if ok { vec![vec![(1, 1)]] } else { vec![vec![(1, 0)]] })));
+    for k in 0..4 {
+        v.push(Box::new(move |c| c.wsimple[k] = Some(if ok { 1 } else { 0 })));
+    }
+    v
+}
+
+fn random_case(rng: &mut Rng) -> Case {
+    let mut c = Case::default();
+    let angles = angle_pool();
+    // profile: 0 any field; 1 only what a format-2 file has; 2 only the PostScript lists (format-1 lib data)
+    let profile = match rng.below(10) {
+        0..=5 => 0,
+        6..=8 => 1,
+        _ => 2,
+    };
+    // each present field is drawn from its satisfying values with probability 7/8
+    let mut good = |rng: &mut Rng| !rng.chance(1, 8);
+    if profile < 2 && rng.chance(1, 2) {
+        let mut d: Vec<u8> = rng.pick(&VALID_DATES).as_bytes().to_vec();
+        if good(rng) {
+            // a random in-range date
+            let s = format!(
+                "{:04}/{:02}/{:02} {:02}:{:02}:{:02}",
+                rng.below(10000),
+                *rng.pick(&[1u64, 2, 9, 10, 11, 12]),
+                *rng.pick(&[1u64, 9, 10, 28, 30, 31]),
+                *rng.pick(&[0u64, 1, 9, 12, 22, 23]),
+                *rng.pick(&[0u64, 30, 58, 59]),
+                *rng.pick(&[0u64, 30, 58, 59])
+            );
+            d = s.into_bytes();
+        } else {
+            match rng.below(6) {
+                0 => {
+                    let p = rng.below(19) as usize;
+                    d[p] = *rng.pick(&DATE_BYTES);
+                }
+                5 => {
+                    // a multi-byte character over as many bytes as it is long (the total stays 19)
+                    let ch = *rng.pick(&["\u{0661}", "\u{FF11}", "\u{1D7CF}", "\u{00B2}", "\u{00E9}", "\u{0969}"]);
+                    let p = rng.below((20 - ch.len()) as u64) as usize;
+                    d.splice(p..p + ch.len(), ch.bytes());
+                }
+                1 => {
+                    // a field at a boundary
+                    let (p, vals): (usize, &[&str]) = match rng.below(5) {
+                        0 => (5, &["00", "01", "12", "13"]),
+                        1 => (8, &["00", "01", "31", "32"]),
+                        2 => (11, &["00", "23", "24"]),
+                        3 => (14, &["00", "59", "60"]),
+                        _ => (17, &["00", "59", "60"]),
+                    };
+                    let v = rng.pick(vals).as_bytes();
+                    d[p] = v[0];
+                    d[p + 1] = v[1];
+                }
+                2 => {
+                    d.pop();
+                }
+                3 => d.push(b'0'),
+                _ => {
+                    for _ in 0..2 {
+                        let p = rng.below(19) as usize;
+                        d[p] = *rng.pick(&DATE_BYTES);
+                    }
+                }
+            }
+        }
+        c.date = Some(String::from_utf8(d).unwrap());
+    }
+    if profile == 0 && rng.chance(1, 3) {
+        let n = rng.below(5);
+        let mut g: Vec<(i64, Vec<i64>)> = (0..n)
+            .map(|_| (*rng.pick(&[0i64, 1, 2, 3, 65535, 4294967295]), (0..rng.below(3)).map(|_| rng.below(4) as i64).collect()))
+            .collect();
+        if good(rng) {
+            g.sort();
+        }
+        c.gasp = Some(g);
+    }
+    if profile == 0 && rng.chance(1, 2) {
+        let n = rng.below(5) as usize;
+        let ids = ["a", "b", "c", "A", "a ", "d", "e"];
+        let ok = good(rng);
+        let mut used: Vec<&str> = vec![];
+        c.guides = Some(
+            (0..n)
+                .map(|_| {
+                    let mut id = if rng.chance(1, 2) { Some(*rng.pick(&ids)) } else { None };
+                    if ok {
+                        if let Some(x) = id {
+                            if used.contains(&x) {
+                                id = None;
+                            } else {
+                                used.push(x);
+                            }
+                        }
+                    }
+                    match rng.below(4) {
+                        0 => gd_v(id),
+                        1 => gd_h(id),
+                        _ => gd_a(if ok || rng.chance(1, 2) { *rng.pick(&[0.0, -0.0, 1.0, 180.0, 360.0, 359.5]) } else { *rng.pick(&angles) }, id),
+                    }
+                })
+                .collect(),
+        );
+    }
+    if profile < 2 && rng.chance(1, 3) {
+        let n = rng.below(5);
+        c.selection = Some(if good(rng) {
+            (0..n).map(|_| *rng.pick(&[1i64, 2, 3, 4, 7, 8, 9, 15, 255])).collect()
+        } else {
+            (0..n + 1).map(|_| *rng.pick(&[0i64, 1, 2, 3, 4, 5, 6, 7, 8, 9, 15, 255])).collect()
+        });
+    }
+    if profile < 2 && rng.chance(1, 3) {
+        c.class = Some(if good(rng) {
+            vec![*rng.pick(&[0i64, 1, 13, 14]), *rng.pick(&[0i64, 1, 14, 15])]
+        } else {
+            vec![*rng.pick(&[0i64, 1, 13, 14, 15, 16, 255]), *rng.pick(&[0i64, 1, 14, 15, 16, 17, 255])]
+        });
+    }
+    for k in 0..6 {
+        if rng.chance(if profile == 2 { 1 } else { 1 }, if profile == 2 { 2 } else { 4 }) {
+            let max = [14u64, 10, 14, 10, 12, 12][k];
+            let n = if good(rng) {
+                let n = *rng.pick(&[0, 2, 4, max - 2, max]);
+                if k >= 4 && rng.chance(1, 2) { n.saturating_sub(1) } else { n }
+            } else {
+                match rng.below(4) {
+                    0 => rng.below(18),
+                    1 => max,
+                    2 => max + 1,
+                    _ => max - 1,
+                }
+            };
+            c.lists[k] = Some(ints(n as usize));
+        }
+    }
+    if profile == 2 && c.lists.iter().all(|l| l.is_none()) {
+        c.lists[rng.below(6) as usize] = Some(ints(2));
+    }
+    if profile == 0 && rng.chance(1, 4) {
+        c.wext = Some(if good(rng) {
+            rng.pick(&[vec![vec![(1usize, 1usize)]], vec![vec![(1, 1), (2, 3)]], vec![vec![(2, 3)], vec![(1, 1)]]]).clone()
+        } else {
+            rng.pick(&wext_pool()).clone()
+        });
+    }
+    for k in 0..4 {
+        if profile == 0 && rng.chance(1, 4) {
+            c.wsimple[k] = Some(if good(rng) { 1 + rng.below(2) as usize } else { rng.below(3) as usize });
+        }
+    }
+    // typed extras, mostly well-typed
+    if profile == 0 {
+        if rng.chance(1, 8) {
+            c.panose = Some((0..*rng.pick(&[10usize, 10, 10, 10, 10, 10, 9, 11])).map(|k| k as i64).collect());
+        }
+        if rng.chance(1, 8) {
+            c.width = Some(*rng.pick(&[1i64, 5, 9, 9, 1, 5, 0, 10]));
+        }
+        if rng.chance(1, 8) {
+            c.charset = Some(*rng.pick(&[1i64, 2, 20, 20, 1, 2, 0, 21]));
+        }
+        if rng.chance(1, 8) {
+            let ok = good(rng);
+            c.u32s = (0..rng.below(8))
+                .map(|_| if ok { *rng.pick(&[0i64, 1, 400, 4294967295]) } else { *rng.pick(&[0i64, 1, 4294967295, -1, 4294967296]) })
+                .collect();
+        }
+        if rng.chance(1, 8) {
+            c.upm = Some(*rng.pick(&[1000.0, 2048.0, 0.0, 16.5, 1000.0, 2048.0, -0.0, -1000.0]));
+        }
+        if rng.chance(1, 60) {
+            c.unknown = true;
+        }
+    }
+    c
+}
+
+pub fn generate(a: &Args) -> Vec<(String, Case)> {
+    let mut out: Vec<(String, Case)> = vec![];
+    // the committed corpus (witnesses of repaired findings, earlier failures) runs first
+    for x in &a.extra {
+        if let Some(dir) = x.strip_prefix("corpus=") {
+            let mut files: Vec<PathBuf> = std::fs::read_dir(dir)
+                .map(|rd| rd.filter_map(|e| e.ok().map(|e| e.path())).collect())
+                .unwrap_or_default();
+            files.sort();
+            for f in files {
+                if f.extension().map(|e| e == "json").unwrap_or(false) {
+                    let j: serde_json::Value =
+                        serde_json::from_str(&std::fs::read_to_string(&f).expect("corpus file")).expect("corpus json");
+                    out.push((
+                        format!("corpus {}", f.file_name().unwrap().to_string_lossy()),
+                        case_of_json(&j["case"]),
+                    ));
+                }
+            }
+        }
+    }
+    let mut push = |label: String, c: Case| out.push((label, c));
+    push("empty".into(), Case::default());
+    // --- the six lists, every length 0..16
+    for k in 0..6 {
+        for n in 0..=16 {
+            let mut c = Case::default();
+            c.lists[k] = Some(ints(n));
+            push(format!("list {} len {}", LIST_KEYS[k], n), c);
+        }
+    }
+    // --- dates
+    let date = |d: &[u8]| {
+        let mut c = Case::default();
+        c.date = Some(String::from_utf8(d.to_vec()).unwrap());
+        c
+    };
+    for base in VALID_DATES {
+        push(format!("date {}", base), date(base.as_bytes()));
+        for p in 0..19 {
+            for b in DATE_BYTES {
+                let mut d = base.as_bytes().to_vec();
+                if d[p] != b {
+                    d[p] = b;
+                    push(format!("date {} byte {} := {:?}", base, p, b as char), date(&d));
+                }
+            }
+        }
+        // multi-byte characters: numeric ones of 2, 3 and 4 UTF-8 bytes (ARABIC-INDIC DIGIT ONE,
+        // FULLWIDTH DIGIT ONE, MATHEMATICAL BOLD DIGIT ONE), SUPERSCRIPT TWO (numeric, not a
+        // digit) and a letter. (a) in place of exactly as many ASCII bytes as the character is long:
+        // still 19 bytes, and slice indices fall inside the character; (b) in place of one byte:
+        // still 19 characters, more bytes.
+        for ch in ["\u{0661}", "\u{FF11}", "\u{1D7CF}", "\u{00B2}", "\u{00E9}"] {
+            let l = ch.len();
+            for p in 0..=(19 - l) {
+                let mut d = base.as_bytes().to_vec();
+                d.splice(p..p + l, ch.bytes());
+                push(format!("date {} bytes {}..{} := U+{:04X}", base, p, p + l, ch.chars().next().unwrap() as u32), date(&d));
+            }
+            for p in 0..19 {
+                let mut d = base.as_bytes().to_vec();
+                d.splice(p..p + 1, ch.bytes());
+                push(format!("date {} byte {} := U+{:04X} ({} bytes)", base, p, ch.chars().next().unwrap() as u32, 18 + l), date(&d));
+            }
+        }
+        // several multi-byte digits at once, 19 bytes in total
+        for d in ["\u{0662}\u{0660}\u{0662}\u{0660}/\u{0660}\u{0661}/01 00",
+                  "\u{FF12}\u{FF10}\u{FF12}\u{FF10}/\u{FF10}1 0", "2020/01/01 00:00:\u{0660}", "2020/01/01 00:00:0\u{0661}"] {
+            if base == VALID_DATES[0] {
+                push(format!("date {:?} ({} bytes)", d, d.len()), date(d.as_bytes()));
+            }
+        }
+    }
+    let fields: [(usize, &[&str]); 5] = [
+        (5, &["00", "01", "09", "10", "12", "13", "19", "20", "99", " 1", "1 ", "+1"]),
+        (8, &["00", "01", "09", "28", "30", "31", "32", "39", "40", "99", " 1", "+1"]),
+        (11, &["00", "01", "19", "23", "24", "25", "29", "30", "99", " 1", "+1"]),
+        (14, &["00", "01", "58", "59", "60", "61", "99", " 1", "+1"]),
+        (17, &["00", "01", "58", "59", "60", "61", "99", " 1", "+1"]),
+    ];
+    for (p, vals) in fields {
+        for v in vals {
+            let mut d = VALID_DATES[0].as_bytes().to_vec();
+            d[p] = v.as_bytes()[0];
+            d[p + 1] = v.as_bytes()[1];
+            push(format!("date field at {} := {:?}", p, v), date(&d));
+        }
+    }
+    for y in ["0000", "0001", "1970", "9999", "65535", "+123", " 123", "123 ", "12/3", "-123", "२०२०"] {
+        let mut d = y.as_bytes().to_vec();
+        d.extend_from_slice(&VALID_DATES[0].as_bytes()[4..]);
+        push(format!("date year {:?}", y), date(&d));
+    }
+    for mo in ["00", "01", "12", "13"] {
+        for da in ["00", "01", "31", "32"] {
+            for h in ["00", "23", "24"] {
+                for mi in ["59", "60"] {
+                    for se in ["59", "60"] {
+                        let d = format!("2024/{}/{} {}:{}:{}", mo, da, h, mi, se);
+                        push(format!("date {}", d), date(d.as_bytes()));
+                    }
+                }
+            }
+        }
+    }
+    for d in [
+        "",
+        " ",
+        "2020/06/15 12:30:4",
+        "2020/06/15 12:30:450",
+        " 2020/06/15 12:30:45",
+        "2020/06/15 12:30:45 ",
+        "2020/06/15  12:30:45",
+        "2020-06-15 12:30:45",
+        "2020/06/15T12:30:45",
+        "2020/06/15 12.30.45",
+        "2020:06:15 12/30/45",
+        "20200615123045     ",
+        "2020/6/15 12:30:45",
+        "2020/06/15 12:30:45\n",
+        "///////////////////",
+        "0000000000000000000",
+        "                   ",
+    ] {
+        push(format!("date {:?}", d), date(d.as_bytes()));
+    }
+    // --- selection bits: all subsets of 0..7, and some lists that are not sets
+    for m in 0..256u32 {
+        let mut c = Case::default();
+        c.selection = Some((0..8).filter(|b| m >> b & 1 == 1).map(|b| b as i64).collect());
+        push(format!("selection subset {:#010b}", m), c);
+    }
+    for v in [vec![7, 0], vec![1, 1], vec![255], vec![9, 8, 6], vec![4, 5, 4], vec![256], vec![-1], vec![16, 32, 48]] {
+        let mut c = Case::default();
+        c.selection = Some(v.clone());
+        push(format!("selection {:?}", v), c);
+    }
+    // --- family class
+    for x in 0..=17 {
+        for y in 0..=17 {
+            let mut c = Case::default();
+            c.class = Some(vec![x, y]);
+            push(format!("class [{}, {}]", x, y), c);
+        }
+    }
+    for v in [vec![], vec![1], vec![14], vec![1, 2, 3], vec![14, 15, 0], vec![0, 0, 0, 0], vec![99, 0, 0], vec![255, 255], vec![256, 0], vec![0, 256], vec![-1, 0], vec![0, -1], vec![14, 255]] {
+        let mut c = Case::default();
+        c.class = Some(v.clone());
+        push(format!("class {:?}", v), c);
+    }
+    // --- gasp: all lists of length <= 4 over three ppem values
+    for n in 0..=4u32 {
+        for idx in 0..3u32.pow(n) {
+            let mut c = Case::default();
+            let mut x = idx;
+            let mut v = vec![];
+            for _ in 0..n {
+                v.push(((x % 3) as i64 + 1, vec![(x % 4) as i64]));
+                x /= 3;
+            }
+            c.gasp = Some(v);
+            push(format!("gasp #{} of length {}", idx, n), c);
+        }
+    }
+    for v in [
+        vec![(4294967295i64, vec![])],
+        vec![(0, vec![]), (4294967295, vec![])],
+        vec![(4294967295, vec![]), (0, vec![])],
+        vec![(4294967296, vec![])],
+        vec![(-1, vec![])],
+        vec![(1, vec![0, 1, 2, 3])],
+        vec![(1, vec![4])],
+        vec![(1, vec![-1])],
+        vec![(2, vec![]), (1, vec![4])],
+    ] {
+        let mut c = Case::default();
+        c.gasp = Some(v.clone());
+        push(format!("gasp {:?}", v), c);
+    }
+    // --- guidelines: angles, shapes, identifier/angle order
+    for x in angle_pool() {
+        for id in [None, Some("a")] {
+            let mut c = Case::default();
+            c.guides = Some(vec![gd_a(x, id)]);
+            push(format!("guideline angle {:?}", x), c);
+        }
+    }
+    for m in 0..8u32 {
+        let mut c = Case::default();
+        c.guides = Some(vec![RGuide {
+            x: m & 1 == 1,
+            y: m & 2 == 2,
+            angle: if m & 4 == 4 { Some(30.0) } else { None },
+            id: None,
+        }]);
+        push(format!("guideline shape x={} y={} angle={}", m & 1, m >> 1 & 1, m >> 2), c);
+    }
+    let alpha = guide_alphabet();
+    for n in 0..=3u32 {
+        for idx in 0..(alpha.len() as u32).pow(n) {
+            let mut c = Case::default();
+            let mut x = idx as usize;
+            let mut v = vec![];
+            for _ in 0..n {
+                v.push(alpha[x % alpha.len()].clone());
+                x /= alpha.len();
+            }
+            c.guides = Some(v);
+            push(format!("guidelines #{} of length {}", idx, n), c);
+        }
+    }
+    for (i1, i2) in [("a", "A"), ("a", "a "), ("", ""), ("x", "x"), ("", " ")] {
+        let mut c = Case::default();
+        c.guides = Some(vec![gd_v(Some(i1)), gd_h(Some(i2))]);
+        push(format!("guideline ids {:?} {:?}", i1, i2), c);
+    }
+    // --- WOFF
+    for w in wext_pool() {
+        let mut c = Case::default();
+        c.wext = Some(w.clone());
+        push(format!("woff extensions {:?}", w), c);
+    }
+    for k in 0..4 {
+        for n in 0..3 {
+            let mut c = Case::default();
+            c.wsimple[k] = Some(n);
+            push(format!("woff simple {} with {} entries", k, n), c);
+        }
+    }
+    let wx: [Option<Vec<Vec<(usize, usize)>>>; 4] = [None, Some(vec![]), Some(vec![vec![]]), Some(vec![vec![(1, 1)]])];
+    for e in &wx {
+        for m in 0..81u32 {
+            let mut c = Case::default();
+            c.wext = e.clone();
+            let mut x = m;
+            for k in 0..4 {
+                c.wsimple[k] = [None, Some(0), Some(1)][(x % 3) as usize];
+                x /= 3;
+            }
+            push(format!("woff combination {:?} {}", e, m), c);
+        }
+    }
+    // --- typed deserialisers
+    for v in [(0..9).collect::<Vec<i64>>(), (0..10).collect(), (0..11).collect(), vec![], vec![-1; 10], vec![4294967295; 10], vec![4294967296; 10]] {
+        let mut c = Case::default();
+        c.panose = Some(v.clone());
+        push(format!("panose {:?}", v), c);
+    }
+    for w in [-1, 0, 1, 5, 9, 10, 255, 256] {
+        let mut c = Case::default();
+        c.width = Some(w);
+        push(format!("width class {}", w), c);
+        let mut c = Case::default();
+        c.charset = Some(w + 11);
+        push(format!("charset {}", w + 11), c);
+        let mut c = Case::default();
+        c.charset = Some(w);
+        push(format!("charset {}", w), c);
+    }
+    for k in 0..7 {
+        for z in [-1, 0, 1, 4294967295, 4294967296] {
+            let mut c = Case::default();
+            c.u32s = vec![7; k];
+            c.u32s.push(z);
+            push(format!("{} = {}", U32_KEYS[k], z), c);
+        }
+    }
+    for u in [1000.0, 0.0, -0.0, -1.0, 0.5, -0.5, f64::INFINITY, f64::NEG_INFINITY, f64::NAN, -f64::NAN, 1e-320, -1e-320] {
+        let mut c = Case::default();
+        c.upm = Some(u);
+        push(format!("unitsPerEm {:?}", u), c);
+    }
+    {
+        let mut c = Case::default();
+        c.unknown = true;
+        push("unknown key".into(), c.clone());
+        c.date = Some(VALID_DATES[0].into());
+        push("unknown key + date".into(), c.clone());
+        c.date = Some("x".into());
+        push("unknown key + bad date".into(), c);
+    }
+    // --- order of the rules: every pair of violated rules, each with the others satisfied/absent
+    let bad = rule_instances(false);
+    let good = rule_instances(true);
+    for i in 0..bad.len() {
+        let mut c = Case::default();
+        bad[i](&mut c);
+        push(format!("rule instance {} violated", i), c);
+        let mut c = Case::default();
+        good[i](&mut c);
+        push(format!("rule instance {} satisfied", i), c);
+        for j in 0..bad.len() {
+            if i != j {
+                let mut c = Case::default();
+                bad[i](&mut c);
+                bad[j](&mut c);
+                push(format!("rule instances {} then {} violated", i, j), c);
+            }
+        }
+    }
+    {
+        let mut c = Case::default();
+        for g in &good {
+            g(&mut c);
+        }
+        push("every rule satisfied".into(), c.clone());
+        for i in 0..bad.len() {
+            let mut d = c.clone();
+            bad[i](&mut d);
+            push(format!("every rule satisfied except instance {}", i), d);
+        }
+        let mut c = Case::default();
+        for b in &bad {
+            b(&mut c);
+        }
+        push("every rule violated".into(), c);
+    }
+    // --- random combinations of several rule-relevant fields at once
+    let nrand = if a.thorough() { 200_000 } else { 6_000 };
+    let mut rng = Rng::new(a.seed);
+    for k in 0..nrand {
+        push(format!("random #{}", k), random_case(&mut rng));
+    }
+    out
+}
+
+fn run_cases(cases: &[(String, Case)], root: &Path, nthreads: usize) -> Vec<Observed> {
+    let chunk = (cases.len() + nthreads - 1) / nthreads.max(1);
+    let mut results: Vec<Vec<Observed>> = vec![];
+    std::thread::scope(|s| {
+        let hs: Vec<_> = cases
+            .chunks(chunk.max(1))
+            .enumerate()
+            .map(|(t, part)| {
+                let root = root.to_path_buf();
+                s.spawn(move || {
+                    let sb = Sandbox::new(&root, &format!("{}", t));
+                    part.iter().map(|(_, c)| observe(c, &sb)).collect::<Vec<_>>()
+                })
+            })
+            .collect();
+        for h in hs {
+            results.push(h.join().expect("worker"));
+        }
+    });
+    results.into_iter().flatten().collect()
+}
+
+pub fn main(a: &Args) {
+    std::fs::create_dir_all(&a.out).unwrap();
+    let sandbox_root = a.out.join("sandbox");
+    std::fs::create_dir_all(&sandbox_root).unwrap();
+    if let Some(p) = &a.replay {
+        // replay file: JSON with the case under "case"
+        let j: serde_json::Value = serde_json::from_str(&std::fs::read_to_string(p).expect("replay file")).expect("json");
+        let c = case_of_json(&j["case"]);
+        let sb = Sandbox::new(&sandbox_root, "replay");
+        let (v, s, l, l2, l1) = observe(&c, &sb);
+        println!("fontinfo.plist given to Font::load:\n{}", plist_text(&c));
+        if v1_applicable(&c) {
+            println!("lib.plist given to Font::load (format 1):\n{}", lib_text_v1(&c));
+        }
+        println!("in-memory FontInfo exists: {}", build(&c).is_some());
+        println!("FontInfo::validate       -> {:?}", v);
+        println!("Font::save               -> {:?}", s);
+        println!("Font::load (format 3)    -> {:?}", l);
+        println!("Font::load (format 2)    -> {:?}", l2);
+        println!("Font::load (format 1 lib)-> {:?}", l1);
+        println!(
+            "GALLINA mkcase {} {} {} {} {} {}",
+            g_raw(&c), g_obs(&v), g_obs(&s), g_obs(&l), g_obs(&l2), g_obs(&l1)
+        );
+        return;
+    }
+    let cases = generate(a);
+    let obs = run_cases(&cases, &sandbox_root, 8);
+    // shards of Gallina cases + a JSON line per case (label, case, what was observed)
+    let shard = 500;
+    let mut nshards = 0;
+    let mut jl = String::new();
+    let mut hist = std::collections::BTreeMap::<String, u64>::new();
+    for (k, part) in cases.chunks(shard).enumerate() {
+        let mut s = String::new();
+        for (i, (_, c)) in part.iter().enumerate() {
+            let (v, sv, l, l2, l1) = &obs[k * shard + i];
+            let _ = writeln!(
+                s,
+                "mkcase {} {} {} {} {} {}",
+                g_raw(c), g_obs(v), g_obs(sv), g_obs(l), g_obs(l2), g_obs(l1)
+            );
+        }
+        write_file(&a.out.join(format!("cases_{}.txt", k)), &s);
+        nshards += 1;
+    }
+    let short = |o: &Obs| match o {
+        Obs::NA => "n/a".to_string(),
+        Obs::Ok(_) => "ok".to_string(),
+        Obs::Invalid(e) => format!("invalid {}", e),
+        Obs::Parse => "parse".to_string(),
+        Obs::Other(c, m) => format!("other {} {}", c, m),
+    };
+    for (k, (label, c)) in cases.iter().enumerate() {
+        let (v, s, l, l2, l1) = &obs[k];
+        let key = format!(
+            "validate={} load={}",
+            match v {
+                Obs::Invalid(e) => e.split(|ch: char| !ch.is_alphanumeric()).find(|t| !t.is_empty()).unwrap_or("?").to_string(),
+                o => short(o).split(' ').next().unwrap().to_string(),
+            },
+            match l {
+                Obs::Invalid(_) => "invalid".to_string(),
+                o => short(o).split(' ').next().unwrap().to_string(),
+            }
+        );
+        *hist.entry(key).or_insert(0) += 1;
+        let _ = writeln!(
+            jl,
+            "{}",
+            serde_json::json!({"index": k, "label": label, "case": case_json(c),
+                "validate": short(v), "save": short(s), "load": short(l),
+                "load_format2": short(l2), "load_format1_lib": short(l1)})
+        );
+    }
+    write_file(&a.out.join("cases.jsonl"), &jl);
+    let nrand = cases.iter().filter(|(l, _)| l.starts_with("random #")).count();
+    let n_mem = obs.iter().filter(|o| o.0 != Obs::NA).count();
+    let n_v2 = obs.iter().filter(|o| o.3 != Obs::NA).count();
+    let n_v1 = obs.iter().filter(|o| o.4 != Obs::NA).count();
+    write_file(
+        &a.out.join("summary.json"),
+        &serde_json::json!({"cases": cases.len(), "shards": nshards, "shard_size": shard,
+            "boundary_exhaustive_cases": cases.len() - nrand, "random_cases": nrand,
+            "with_in_memory_value": n_mem, "through_format2_loader": n_v2, "through_format1_lib_loader": n_v1,
+            "outcome_histogram": hist})
+        .to_string(),
+    );
+    let _ = std::fs::remove_dir_all(&sandbox_root);
 }
